@@ -1,4 +1,5 @@
 import PPLV.Checked.Spec
+import PPLV.Checked.Bounded
 /-!
 `pplv_c11`: reads the journal of `harness/c11_checked.cc` on stdin (grammar there) and, for every
 executed case, (1) runs the code-shaped model `IntOp.run`, (2) evaluates — independently of the
@@ -234,6 +235,66 @@ def handleRow (key : Nat) (data : ByteArray) : M Unit := do
     bump skey fun st => { st with n := st.n + n', nontrivial := st.nontrivial + nt', skipped := st.skipped + sk', bad := st.bad + bad' }
     if let some l := sampleLine then addSample skey l
 
+/-- `prog` lines: a straight-line coefficient computation, run by the library in a bounded
+configuration (`B`) and over `mpz_class` (`U`).  Obligation `bounded`: if the bounded run did not throw,
+its registers are those of the unbounded run.  Obligation `model`: the model (`IntOp.run` + `throws`,
+i.e. `stepB`) predicts the bounded run (exception index and registers). -/
+def progOp (s : String) : Option IntOp :=
+  match s with
+  | "neg" => some .neg | "abs" => some .abs | "add" => some .add | "sub" => some .sub | "mul" => some .mul
+  | "addMul" => some .addMul | "subMul" => some .subMul | "div" => some .div | "rem" => some .rem
+  | "gcd" => some .gcd | "lcm" => some .lcm | _ => none
+
+def runProgModel (t : IntTy) (π : Policy) (instrs : List String) (regs : Array Int) : Option Nat × Array Int := Id.run do
+  let mut r := regs
+  let mut k := 0
+  for ins in instrs do
+    match ins.splitOn ":" with
+    | [nm, d, a, b] =>
+      match progOp nm with
+      | some op =>
+        let di := tokNat d
+        let out := IntOp.run t π op .ignore { to0 := r[di]!, x := r[tokNat a]!, y := r[tokNat b]! }
+        if throws out.2 then return (some k, r)
+        r := r.set! di (t.wrap out.1)
+      | none => return (some 999, r)
+    | _ => return (some 999, r)
+    k := k + 1
+  return (none, r)
+
+def handleProg (id tn : String) (rest : List String) : M Unit := do
+  let s ← get
+  let some t := s.cfg.ty tn | return
+  let some π := s.cfg.pol "BIC" | return
+  -- rest = k instr*k | r0 r1 r2 r3 | B outcome r0..r3 | U r0..r3
+  let parts := (" ".intercalate rest).splitOn " | "
+  match parts with
+  | [p1, p2, p3, p4] =>
+    let instrs := (p1.splitOn " ").drop 1
+    let init := ((p2.splitOn " ").map tokInt).toArray
+    let b := p3.splitOn " "
+    let outcome := b.getD 1 ""
+    let bregs := ((b.drop 2).map tokInt).toArray
+    let uregs := (((p4.splitOn " ").drop 1).map tokInt).toArray
+    let (mexc, mregs) := runProgModel t π instrs init
+    let bexc : Option Nat := if outcome == "ok" then none else (outcome.splitOn ":").getLast?.map tokNat
+    let key := s!"{tn} BIC prog"
+    let mut obs : List String := []
+    if bexc.isNone && bregs != uregs then obs := obs ++ ["bounded"]
+    -- after an exception the destination may have been partly written (lcm stores the quotient first): only
+    -- the position of the exception is compared
+    if mexc != bexc || (bexc.isNone && mregs != bregs) then obs := obs ++ ["model"]
+    let nt := bexc.isSome
+    let nobs := obs
+    bump key fun st => { st with n := st.n + 1, nontrivial := st.nontrivial + (if nt then 1 else 0),
+                                  bad := st.bad + (if nobs.isEmpty then 0 else 1) }
+    if obs.isEmpty then IO.println s!"ok {id}"
+    else
+      let o := "+".intercalate obs
+      let ins := ",".intercalate instrs
+      IO.println s!"MISMATCH {id} {o} T={tn} P=BIC op=prog dir=6 to0=0 x=0 y=0 e=0 real={outcome} model={mexc} exact=- prog={ins} init={init.toList} B={bregs.toList} U={uregs.toList} M={mregs.toList} tags="
+  | _ => IO.println s!"MISMATCH {id} parse prog"
+
 partial def loop (h : IO.FS.Stream) : M Unit := do
   let line ← h.getLine
   if line.isEmpty then return
@@ -269,6 +330,7 @@ partial def loop (h : IO.FS.Stream) : M Unit := do
         bump s!"{tn} {pn} {what}" fun st => { st with bad := st.bad + 1 }
         IO.println s!"MISMATCH {id} model T={tn} P={pn} op={what} dir=0 to0=0 x={x} y={y} e=0 real=0,{rel} model=0,{m} exact=- tags="
     | _, _ => IO.println s!"MISMATCH {id} parse {line.trimAscii.toString}"
+  | "prog" :: id :: tn :: rest => handleProg id tn rest
   | "crash" :: rest =>
     let st ← get
     let what := " ".intercalate rest
